@@ -18,12 +18,10 @@ from concurrent.futures import ThreadPoolExecutor
 import vlib, e2e
 import launch_lib as L
 
-THEOREMS_FULL = ['C15_key_roundtrip', 'C15_key_line_roundtrip', 'C15_key_print_width', 'C15_key_print_injective',
-            'C15_handshake', 'C15_no_key_on_mismatch', 'C15_key_only_after_match', 'C15_success_only_after_match',
-            'C15_deploy_consent', 'C15_no_consent_no_upload', 'C15_retry_once', 'C15_traffic_only_after_match',
-            'C15_deploy_never_panics', 'C15_both_doers', 'C15_system_safe', 'C15_system_progress', 'C15_system_terminates',
-            'C15_prefixes_of_code']
-THEOREMS = ['C15_key_roundtrip', 'C15_key_line_roundtrip', 'C15_key_print_width', 'C15_key_print_injective']
+THEOREMS = ['C15_key_roundtrip', 'C15_key_line_roundtrip', 'C15_key_print_width', 'C15_key_print_injective',
+            'C15_prefixes_of_code', 'C15_handshake', 'C15_no_key_on_mismatch', 'C15_key_only_after_match',
+            'C15_success_only_after_match', 'C15_deploy_consent', 'C15_no_consent_no_upload', 'C15_retry_once',
+            'C15_deploy_never_panics', 'C15_traffic_only_after_match', 'C15_both_doers']
 
 MARKERS = ['No such file or directory', 'The system cannot find the path specified',
            'is not recognized as an internal or external command']
